@@ -38,6 +38,10 @@ def fmt_hstr(x):
     """bytes -> b<hex>, str -> s<hex of utf-8>"""
     if isinstance(x, (bytes, bytearray, memoryview)):
         return 'b' + hx(bytes(x))
+    if not isinstance(x, str):
+        # not a string at all (an int, None, ...): nothing the model has a value for; corr.Runner never sends such a
+        # call to the model (the history counts as unmodelled from there on), the line is only kept for the log
+        return 'x' + hx(repr(x).encode('utf-8'))
     return 's' + hx(x.encode('utf-8'))
 
 
